@@ -246,6 +246,11 @@ def run(ctx):
     for i in (it, it2, it3):
         ctx.absorb(i)
         ctx.notes.extend(i.unknown_notes[:5])
+    # ---- R02.6 no unsynchronised derived state on the objects this property queries (shared rule, see statecache.py)
+    from ..statecache import instance_memo_rule as _memo, positive_example as _memo_pos
+    _memo(ctx, "R02.6", [p.get_class("wavespectra.spectrum.FrequencySpectrum"), p.get_class("wavespectra.spectrum.FrequencyDirectionSpectrum")], "spectrum classes")
+    _memo_pos(ctx, "R02.6")
+    ctx.require_count("R02.6", 2)
     ctx.require_count("R02.1", 1)
     ctx.require_count("R02.2", 5)
     ctx.require_count("R02.3", 5)
